@@ -158,8 +158,21 @@ class SCheck(Check):
             if reproduces(cand):
                 best = cand
                 break
+        # 1b. a violation that only exists between runs (cross-run comparison): the smallest pair of plans that still shows it
+        if len(best["plans"]) > 2 and self.compare_runs:
+            done = False
+            for i in range(len(best["plans"])):
+                for j in range(i + 1, len(best["plans"])):
+                    if time.time() > deadline or done:
+                        break
+                    cand = dict(best, plans=[best["plans"][i], best["plans"][j]])
+                    if reproduces(cand):
+                        best = cand
+                        done = True
+                if done:
+                    break
         # 2. simplest scheduler
-        if time.time() < deadline and best["plans"][0]["sched"].get("kind") != "rtb":
+        if time.time() < deadline and len(best["plans"]) == 1 and best["plans"][0]["sched"].get("kind") != "rtb":
             cand = copy.deepcopy(best)
             cand["plans"] = [dict(cand["plans"][0], sched={"kind": "rtb"})]
             if reproduces(cand):
